@@ -289,6 +289,7 @@ func main() {
 	}))
 	r.Register("merge", runMerge(r))
 	r.Register("upd", runUpd(r))
+	r.Register("consts", func(a []string) string { return "ok" }) // the value is in the case line (read from the source)
 	r.Register("rrs", viaWorker("rrs", nil))
 	r.Register("pdns", viaWorker("pdns", func(a []string, obs string) {
 		steps := strings.Split(strings.Fields(obs)[0], ";")
@@ -311,6 +312,7 @@ func main() {
 	if r.Replayed() {
 		return
 	}
+	genConsts(r)
 	genDQ(r, rng)
 	if r.Thorough() {
 		genDQExhaustive(r, 5) // 111110 bodies
